@@ -254,6 +254,34 @@ class Fn:
         self._facts = None
         self._defs = None
         self._reach = {}
+        # a switch over an enumeration whose case labels name every enumerator has no other way out: the edge to
+        # the code after the switch (no `default:`) is removed
+        enums = getattr(prog, 'facts', {}).get('enums', {}) if prog is not None else {}
+        for b in self.blocks.values():
+            t = b.get('term')
+            if not (t and t['kind'] == 'switch' and isinstance(t.get('cond'), dict) and t['cond'].get('tk') == 'enum'):
+                continue
+            labelled, unl = set(), []
+            for i, s in enumerate(b['succ']):
+                lab = self.blocks[s].get('label') if s is not None and s in self.blocks else None
+                cd = lab.get('cdesc') if lab and 'case' in lab else None
+                if isinstance(cd, dict) and cd.get('k') == 'enum':
+                    labelled.add(cd['n'])
+                elif s is not None:
+                    unl.append(i)
+            if not labelled or len(unl) != 1:
+                continue
+            for en in enums.values():
+                names = {c['n'] for c in en['consts']}
+                if labelled <= names and labelled == names:
+                    i = unl[0]
+                    s = b['succ'][i]
+                    lab = self.blocks[s].get('label') if s in self.blocks else None
+                    if not (lab and lab.get('default')):
+                        b['succ'][i] = None
+                        if b['id'] in self.preds.get(s, []):
+                            self.preds[s].remove(b['id'])
+                    break
         # constant branch conditions (`if constexpr`, template arguments): the edge that can never
         # be taken is removed, so both instantiations of a template are analysed as written
         for b in self.blocks.values():
@@ -1727,6 +1755,8 @@ def ret_value_class(prog, fn, e):
         return 'success' if s['v'] == 0 else 'fail'
     if k == 'ctor' and 'optional' in (s.get('ty') or '') and not s.get('args'):
         return 'fail'
+    if k == 'ctor' and 'optional' in (s.get('ty') or '') and len(s.get('args') or []) == 1 and 'nullopt' in dstr(s['args'][0]):
+        return 'fail'           # std::optional<T>{std::nullopt}
     if k == 'var' and s['n'] == 'nullopt':
         return 'fail'
     if k == 'call':
